@@ -2,7 +2,7 @@
 # tools/fuzz_campaign.sh <ID> <target> <runs-per-process> <processes>
 # Builds the cargo-fuzz targets from /repo's current tree, runs <processes> libFuzzer processes (seeds VERIF_SEED+i,
 # fresh corpus + a few golden files), writes /verif/target/fuzz_stats/<ID>.json. Exit 0 = no crash, 1 = crash
-# (violation; the glue wrote a JSON replay file), 2 = could not build.
+# (violation; the glue wrote a JSON replay file), 2 = could not build, or a process hit a timeout / memory limit.
 set -u
 ID=$1; TGT=$2; RUNS=$3; PROCS=$4
 V=$(cd "$(dirname "$0")/.." && pwd); T=$V/target
@@ -23,9 +23,16 @@ for i in $(seq 1 $PROCS); do
 done
 wait
 t1=$(date +%s)
-crashes=0; execs=0; cov=0; corp=0
+crashes=0; inconcl=0; execs=0; cov=0; corp=0
 for i in $(seq 1 $PROCS); do
-  rc=$(cat $W/rc$i); [ "$rc" != 0 ] && crashes=$((crashes+1))
+  rc=$(cat $W/rc$i)
+  if [ "$rc" != 0 ]; then
+    # the in-target oracle (or the C15 hang rule) prints a VIOLATION line; a libFuzzer timeout / out-of-memory stop or the
+    # watchdog's exit code 3 without such a line is inconclusive, never a violation
+    if grep -q "^VIOLATION property=" $W/log$i; then crashes=$((crashes+1))
+    elif [ "$rc" = 3 ] || grep -qE "libFuzzer: (timeout|out-of-memory)" $W/log$i; then inconcl=$((inconcl+1))
+    else crashes=$((crashes+1)); fi
+  fi
   e=$(grep -E "stat::number_of_executed_units" $W/log$i | awk '{print $2}'); execs=$((execs+${e:-0}))
   c=$(grep -oE "cov: [0-9]+" $W/log$i | tail -1 | awk '{print $2}'); [ "${c:-0}" -gt "$cov" ] && cov=$c
   k=$(ls $W/corpus$i | wc -l); corp=$((corp+k))
@@ -41,5 +48,10 @@ echo "fuzz $TGT: $execs executions in $((t1-t0))s, cov $cov, corpus $corp, crash
 if [ $crashes -gt 0 ]; then
   for i in $(seq 1 $PROCS); do [ "$(cat $W/rc$i)" != 0 ] && grep -E "VIOLATION|panicked|ERROR: " $W/log$i | head -5; done
   exit 1
+fi
+if [ $inconcl -gt 0 ]; then
+  echo "INCONCLUSIVE: $inconcl fuzz process(es) stopped on a libFuzzer timeout / memory limit or the hang watchdog without an oracle failure"
+  for i in $(seq 1 $PROCS); do grep -E "INCONCLUSIVE-HANG|ERROR: libFuzzer" $W/log$i | cut -c1-300 | head -2; done
+  exit 2
 fi
 exit 0
